@@ -439,6 +439,8 @@ class Verifier:
                 return type(a) is type(b) and bool(a == b)
             except Exception:
                 return False
+        if isinstance(cur, HObj) and field == "__dict__":
+            return isinstance(old, dict) and list(cur.fields.keys()) == list(old.keys()) and all(same(cur.fields[k], old[k]) for k in old)
         if isinstance(cur, HObj):
             return same(cur.fields.get(field, _NOFIELD), old)
         if isinstance(cur, HList) and isinstance(old, tuple):
